@@ -101,8 +101,9 @@ def rule_only_input_error(ck, fi=None, depth=0):
             broad = q.exc_is_caught("Exception", q.handler_names(h))
             ck.ob("C30.only-input-error", fi, h, broad, "the handler around the body parser catches Exception (everything a hostile body can provoke), not a narrower class", construct="except %s" % ",".join(q.handler_names(h)))
             ck.ob("C30.only-input-error", fi, h, _converting(h), "the handler converts to HTTPInputError (its last statement raises HTTPInputError, no early exit)", construct="handler body of except %s" % ",".join(q.handler_names(h)))
-        if t.finalbody or t.orelse:
-            raise AnalysisError("C30: try/else/finally in %s (unknown idiom)" % fi.qualname)
+        if t.finalbody:
+            raise AnalysisError("C30: try/finally in %s (unknown idiom)" % fi.qualname)
+        # try/else: the else block is not covered by the handlers; its statements are linted as unprotected code below
 
     # 2. raises
     for r in [x for x in q.walk_body(fi.node) if isinstance(x, ast.Raise)]:
@@ -431,9 +432,10 @@ def rule_byte_exact(ck):
     # urlencoded: blank values are fields too
     pba = ck.func(HU, PBA)
     for c in [c for c in q.calls(pba.node) if q.call_attr(c) in ("parse_qs_bytes", "parse_qs", "parse_qsl")]:
-        kb = q.kwarg(c, "keep_blank_values")
+        kb = q.arg(c, 1, "keep_blank_values")
         ck.ob("C30.byte-exact", pba, c, kb is not None and q.is_const(kb, True), "urlencoded fields with an empty value are kept (keep_blank_values=True)")
-        ck.ob("C30.byte-exact", pba, c, c.args and q.dotted(c.args[0]) == pba.params()[1], "the urlencoded parser is given the body itself (no strip/decode before parsing)")
+        qs_ = q.arg(c, 0, "qs")
+        ck.ob("C30.byte-exact", pba, c, qs_ is not None and q.dotted(qs_) == pba.params()[1], "the urlencoded parser is given the body itself (no strip/decode before parsing)")
 
 
 def x_root(e):
